@@ -98,7 +98,45 @@ def replay(rec: Dict[str, Any]) -> List[Tuple[str, Dict[str, Any], str]]:
     return [(f"{disc}|{lens}", {"assignment": {k: untext(v) for k, v in rec["assign"].items()}, "query": text, "default_spelling": dtext, **extra, "tagged": rec}, disc)]
 
 
+LEXCFG = """CONSTANTS Universe = "prefix"
+ Order = "{order}"
+INIT Init
+NEXT Next
+INVARIANT KindsStable
+INVARIANT NeverIllegal
+INVARIANT ExportKinds
+"""
+
+
+def lexer_conformance(rec: Dict[str, Any]) -> List[Tuple[str, Dict[str, Any], str]]:
+    """The real lexer must produce the token kinds the lexer model (Lexer.tla) produces."""
+    text = untext(rec["text"])
+    try:
+        env = env_for(rec["assign"])
+        kinds = [t.kind for t in env.lexer.tokenize(text)]
+    except BaseException as e:  # noqa: BLE001
+        kinds = ["raised-" + exc_family(e)]
+    if kinds != rec["kinds"]:
+        return [("lexer-model:token-kinds-differ-from-the-rule-list-model", {"assignment": {k: untext(v) for k, v in rec["assign"].items()}, "query": text,
+                 "model_kinds": rec["kinds"], "lexer_kinds": kinds}, "token kinds differ from Lexer.tla")]
+    return []
+
+
 def run(chk: Check, tier: str, seed: int) -> None:
+    # the lexer model: kinds independent of the assignment (longest-first), refuted for shortest-first, and equal to the real lexer's
+    jobs = [("MC_Lexer", LEXCFG.format(order="longest-first"), dict(timeout=3000, workers=10)),
+            ("MC_Lexer", LEXCFG.format(order="shortest-first").replace("INVARIANT ExportKinds\n", ""), dict(timeout=3000, workers=4, expect_violation=True))]
+    lex_ok, lex_bad = core.tlc_parallel(jobs, threads=2)
+    if not lex_bad.violation or "KindsStable" not in lex_bad.violation:
+        raise core.MachineryError("MC_Lexer with shortest-first ordering did not violate KindsStable (the lexer model has lost its teeth)")
+    chk.add_tlc(lex_ok)
+    chk.extra["lexer_model_selftest"] = "shortest-first rule order refuted by TLC: " + lex_bad.violation
+    lrecs = [x for x in lex_ok.records if "kinds" in x]
+    for res in core.pmap(lexer_conformance, lrecs):
+        chk.traces += 1
+        for sig, case, what in res:
+            chk.violation(sig, case, what)
+    chk.extra["lexer_model_tokenizations_compared"] = len(lrecs)
     r = tlc("MC_Tokens", CFG.format(universe="pairs"), timeout=3000)
     chk.add_tlc(r)
     recs = []
